@@ -104,6 +104,8 @@ func generalPlan(tier string, faults bool) []PlanItem {
 		items = append(items, PlanItem{scnRestart("restart/"+stopName(sv)+"-K1", K1, sv), d})
 	}
 	items = append(items,
+		PlanItem{scnRestartLate("restart-late/stop-K1", K1, Item{Do: "stop"}), d},
+		PlanItem{scnRestartLate("restart-late/stopctx-K1", K1, Item{Do: "stopctx"}), d},
 		PlanItem{scnRestartFollower("restart-follower/stop-K1", K1, Item{Do: "stop"}), d + 1},
 		PlanItem{scnRestart2("restart2/stop-then-stopdel-K1", K1, Item{Do: "stop"}), d},
 		PlanItem{scnRestart2("restart2/stopctx-then-stopdel-K1", K1, Item{Do: "stopctx"}), d},
@@ -120,6 +122,8 @@ func generalPlan(tier string, faults bool) []PlanItem {
 			PlanItem{scnTerms("terms-health2-K1", K1, []string{"ok", "bad", "bad", "ok"}, 2, "A", "B"), d},
 			PlanItem{scnPreempt("preempt-lowfirst-K1", K1, []InstSpec{{ID: "A", Priority: 1, Takeover: true}, {ID: "B", Priority: 2, Takeover: true}}, []string{"A", "B"}), d},
 			PlanItem{scnPreemptStop("preempt-then-stopdel-K1", K1), d},
+			PlanItem{scnPreemptDemotedStop("preempt-demoted-then-stopdel-K1-dropall", K1), d},
+			PlanItem{scnHealthWindowTakeover("takeover-inside-health-check-K1", K1), d},
 			PlanItem{scnFailoverTamper("failover-then-outside-delete-K1", K1, "delete"), d},
 			PlanItem{scnFailoverTamper("failover-then-outside-put-K1", K1, "put"), d},
 			PlanItem{scnPrio("preempt-chain-123-K1", []prioOpt{{1, false}, {2, true}, {3, true}}, []string{"A", "B", "C"}, false), d},
@@ -170,4 +174,31 @@ func scnFailoverTamper(name string, k kfn, action string) *Scenario {
 	}
 	s.Horizon = at + s.TTL + 900*ms
 	return s
+}
+
+// preempt-demoted-then-stop: like preempt-then-stop, but A is shut down only after its
+// heartbeat has noticed the preemption (it is a follower then); all watch events are
+// dropped, so what A has cached about the leader is not refreshed before the shutdown.
+func scnPreemptDemotedStop(name string, k kfn) *Scenario {
+	s := scnPreempt(name, k, []InstSpec{{ID: "A", Priority: 1, Takeover: true}, {ID: "B", Priority: 2, Takeover: true}}, []string{"A", "B"})
+	s.Script = append(s.Script, Item{At: s.H + s.H/2 + 3*us, Actor: "stopA", Do: "stopctx", Inst: "A", DeleteKey: true})
+	s.DropAll = true
+	return s
+}
+
+// takeover-inside-health-check: A (priority 1, health checker, watcher still running
+// because it followed X first) leads; B (priority 2, takeover) starts while one of A's
+// heartbeat ticks is inside a health check that takes 50 ms and then reports healthy, i.e.
+// between the tick's leadership test and its revision read.
+func scnHealthWindowTakeover(name string, k kfn) *Scenario {
+	s := k(&Scenario{Name: name})
+	s.Insts = []InstSpec{{ID: "X", Priority: 1}, {ID: "A", Priority: 1, Health: []string{"ok", "ok", "late", "ok"}}, {ID: "B", Priority: 2, Takeover: true}}
+	s.Script = starts("X", "A")
+	tDel := 1*s.H + 53*ms
+	s.Script = append(s.Script, Item{At: tDel, Actor: "stopX", Do: "stopctx", Inst: "X", DeleteKey: true, Fixed: true})
+	// A wins at about tDel+55ms (watch delete event + jitter); its third tick is 3H later
+	tTick := tDel + 55*ms + 3*s.H
+	s.Script = append(s.Script, Item{At: tTick + 10*ms, Actor: "startB", Do: "start", Inst: "B"})
+	s.Horizon = tTick + 4*s.H
+	return s.faultFree()
 }
